@@ -17,17 +17,28 @@ EXPLANATION = ("Exhaustive AST dispatch without wildcard; rejecting arms (Flags,
 RULES = {"C15.a", "C15.b", "C15.c", "C15.d", "C15.e", "C15.f", "C15.g", "C15.h"}
 
 
-def check(ctx):
-    F = ctx.facts
-    ctx.trust("regex-syntax: the parser rejects look-around syntax and reports syntax errors as Err")
-    dispatch.analyze(ctx, RULES)
-    classes.analyze(ctx, {"C15.e"})
-    panics.analyze(ctx, {"C15.h"})
-    # an unsupported class is rejected when its predicate is created, and predicates are created per *registered* class:
-    # the registry may fold two classes into one entry only if they mean the same (C02.f), else the second is never converted
-    from . import sharing
-    sharing.analyze(ctx, {"C02.f"})
+def text_is_exactly(ex, p, v, what_rx):
+    """The regex text handed to the parser is exactly the configured text (read through references / as_str / deref only): no
+    call in between that could change it (trim, to_lowercase, replace, slicing ...)."""
+    n = 0
+    while n < 8:
+        n += 1
+        if v[0] == "ref":
+            v2 = ex.deref_val(p, v)
+            if v2 == v:
+                break
+            v = v2
+        elif v[0] == "deref":
+            v = v[1]
+        else:
+            break
+    return re.search(what_rx, S.fstr(v)) is not None and not [x for x in S.subterms(v) if x[0] == "app" and not re.search(r"Pattern::pattern$|Lookahead::pattern$", str(x[1]))]
 
+
+def parse_pipeline(ctx, rule):
+    """Text -> AST -> Nfa for patterns and lookaheads: the text parsed is exactly the configured text, parsed with the crate's one
+    parser configuration, the AST converted is the one parsed, and every error is returned."""
+    F = ctx.facts
     # ---- C15.d every entry point parses and converts; every error of the result is re-raised
     tp = F.fn(r"MultiPatternNfa::try_from_patterns$")
     ctx.analysed_fn(tp)
@@ -38,30 +49,31 @@ def check(ctx):
         ta = p.calls(r"Nfa::try_from_ast$")
         if not pr:
             continue
-        src_ok = S.mentions(pr[0][3][0], lambda x: x[0] == "app" and re.search(r"Pattern::pattern$", x[1]) is not None) and "item@" in S.fstr(pr[0][3][0])
-        ctx.ob("C15.d", "patterns:each-pattern-string-is-parsed", bool(src_ok), "parse_regex_syntax(%s)" % S.vstr(pr[0][3][0])[:80], tp.loc(pr[0][1]))
+        src_ok = S.mentions(pr[0][3][0], lambda x: x[0] == "app" and re.search(r"Pattern::pattern$", x[1]) is not None) and "item@" in S.fstr(pr[0][3][0]) \
+            and text_is_exactly(ex, p, pr[0][3][0], r"^[&*(]*Pattern::pattern\([&*]*\(?item@bb\d+(\.1)?\)?\)\)?$")
+        ctx.ob(rule, "patterns:each-pattern-string-is-parsed", bool(src_ok), "parse_regex_syntax(%s)" % S.vstr(pr[0][3][0])[:80], tp.loc(pr[0][1]))
         pv = variant_of(ex, p, pr[0][4])
         if pv == "Err":
             seen.add("parse-err")
-            ctx.ob("C15.d", "patterns:syntax-error-is-returned", p.end[0] == "return" and variant_of(ex, p, p.end[1]) == "Err" and not ta,
+            ctx.ob(rule, "patterns:syntax-error-is-returned", p.end[0] == "return" and variant_of(ex, p, p.end[1]) == "Err" and not ta,
                    "parse error -> %s" % (S.vstr(p.end[1])[:60] if p.end[0] == "return" else p.end[0]), tp.loc())
             continue
         if len(ta) != 1:
-            ctx.ob("C15.d", "patterns:parsed-ast-is-converted", False, "%d try_from_ast calls after a successful parse" % len(ta), tp.loc())
+            ctx.ob(rule, "patterns:parsed-ast-is-converted", False, "%d try_from_ast calls after a successful parse" % len(ta), tp.loc())
             continue
         ast_ok = ta[0][3][0] == ("field", ("downcast", pr[0][4], "Ok"), "0")
-        ctx.ob("C15.d", "patterns:parsed-ast-is-converted", ast_ok, "try_from_ast(%s)" % S.vstr(ta[0][3][0])[:80], tp.loc(ta[0][1]))
+        ctx.ob(rule, "patterns:parsed-ast-is-converted", ast_ok, "try_from_ast(%s)" % S.vstr(ta[0][3][0])[:80], tp.loc(ta[0][1]))
         tv = variant_of(ex, p, ta[0][4])
         if tv == "Err":
             seen.add("convert-err")
             ok = p.end[0] == "return" and variant_of(ex, p, p.end[1]) == "Err"
-            ctx.ob("C15.d", "patterns:conversion-error-is-returned", ok, "conversion error -> %s" % (S.vstr(p.end[1])[:80] if p.end[0] == "return" else p.end[0]), tp.loc())
+            ctx.ob(rule, "patterns:conversion-error-is-returned", ok, "conversion error -> %s" % (S.vstr(p.end[1])[:80] if p.end[0] == "return" else p.end[0]), tp.loc())
         elif tv == "Ok":
             seen.add("ok")
-            ctx.ob("C15.d", "patterns:next-pattern-after-success", p.end[0] == "cut", "after a successful pattern: %s" % p.end[0], tp.loc())
-    ctx.ob("C15.d", "patterns:all-outcomes", seen == {"parse-err", "convert-err", "ok"}, "outcomes %s" % sorted(seen), tp.loc())
+            ctx.ob(rule, "patterns:next-pattern-after-success", p.end[0] == "cut", "after a successful pattern: %s" % p.end[0], tp.loc())
+    ctx.ob(rule, "patterns:all-outcomes", seen == {"parse-err", "convert-err", "ok"}, "outcomes %s" % sorted(seen), tp.loc())
     its = [M.call_name(t) for bb, t in tp.calls(r"Iterator>::(skip|take|filter|step_by|rev|skip_while|take_while)\b")]
-    ctx.ob("C15.d", "patterns:all-patterns-visited", not its, "iterator adapters: %s" % its, tp.loc())
+    ctx.ob(rule, "patterns:all-patterns-visited", not its, "iterator adapters: %s" % its, tp.loc())
 
     ps_ = F.fn(r"parser::parse_regex_syntax$")
     ctx.analysed_fn(ps_)
@@ -72,18 +84,23 @@ def check(ctx):
         pc = p.calls(r"ast::parse::Parser::parse$")
         r = p.end[1]
         if len(pc) != 1:
-            ctx.ob("C15.d", "parser:one-parse", False, "%d parse calls" % len(pc), ps_.loc())
+            ctx.ob(rule, "parser:one-parse", False, "%d parse calls" % len(pc), ps_.loc())
             continue
         ok_in = S.fstr(ex.deref_val(p, pc[0][3][1])) in ("input", "*input")
-        ctx.ob("C15.d", "parser:parses-the-given-string", ok_in, "Parser::parse(%s)" % S.fstr(pc[0][3][1]), ps_.loc())
+        ctx.ob(rule, "parser:parses-the-given-string", ok_in, "Parser::parse(%s)" % S.fstr(pc[0][3][1]), ps_.loc())
         v = variant_of(ex, p, pc[0][4])
         if v == "Err":
             seen_p.add("err")
-            ctx.ob("C15.d", "parser:syntax-error-is-returned", r[0] == "adt" and r[2] == "Err" and S.mentions(r, lambda x: x == ("field", ("downcast", pc[0][4], "Err"), "0")), "parse Err -> %s" % S.fstr(r)[:80], ps_.loc())
+            ctx.ob(rule, "parser:syntax-error-is-returned", r[0] == "adt" and r[2] == "Err" and S.mentions(r, lambda x: x == ("field", ("downcast", pc[0][4], "Err"), "0")), "parse Err -> %s" % S.fstr(r)[:80], ps_.loc())
         elif v == "Ok":
             seen_p.add("ok")
-            ctx.ob("C15.d", "parser:returns-the-parsed-ast", r[0] == "adt" and r[2] == "Ok" and r[3][0] == ("field", ("downcast", pc[0][4], "Ok"), "0"), "parse Ok -> %s" % S.fstr(r)[:80], ps_.loc())
-    ctx.ob("C15.d", "parser:both-outcomes", seen_p == {"err", "ok"}, "outcomes %s" % sorted(seen_p), ps_.loc())
+            ctx.ob(rule, "parser:returns-the-parsed-ast", r[0] == "adt" and r[2] == "Ok" and r[3][0] == ("field", ("downcast", pc[0][4], "Ok"), "0"), "parse Ok -> %s" % S.fstr(r)[:80], ps_.loc())
+    # the parser's configuration decides which texts are syntax errors: only the default one (Parser::new(), or a builder whose
+    # only option restricts: nest_limit); octal / ignore_whitespace / empty_min_range accept more texts or read them differently
+    cfg = [M.short_name(M.call_name(t)) for bb, t in ps_.calls(r"ast::parse::ParserBuilder::|ast::parse::ParserBuilder as ")]
+    badcfg = [c for c in cfg if not re.search(r"ParserBuilder::(new|build|nest_limit)$|Default>::default$|Clone>::clone$", c)]
+    ctx.ob(rule, "parser:default-configuration", not badcfg, "parser options set: %s" % (badcfg or "none (default syntax)"), ps_.loc())
+    ctx.ob(rule, "parser:both-outcomes", seen_p == {"err", "ok"}, "outcomes %s" % sorted(seen_p), ps_.loc())
 
     tl = F.fn(r"CompiledLookahead::try_from_lookahead$")
     ctx.analysed_fn(tl)
@@ -95,20 +112,34 @@ def check(ctx):
         r = p.end[1]
         if pr and variant_of(ex, p, pr[0][4]) == "Err":
             seen.add("parse-err")
-            ctx.ob("C15.d", "lookahead:syntax-error-is-returned", variant_of(ex, p, r) == "Err", "-> %s" % S.vstr(r)[:60], tl.loc())
+            ctx.ob(rule, "lookahead:syntax-error-is-returned", variant_of(ex, p, r) == "Err", "-> %s" % S.vstr(r)[:60], tl.loc())
         elif ta and variant_of(ex, p, ta[0][4]) == "Err":
             seen.add("convert-err")
-            ctx.ob("C15.d", "lookahead:conversion-error-is-returned", variant_of(ex, p, r) == "Err", "-> %s" % S.vstr(r)[:60], tl.loc())
+            ctx.ob(rule, "lookahead:conversion-error-is-returned", variant_of(ex, p, r) == "Err", "-> %s" % S.vstr(r)[:60], tl.loc())
         elif ta:
             seen.add("ok")
-            ok = ta[0][3][0] == ("field", ("downcast", pr[0][4], "Ok"), "0") and "lookahead.pattern" in S.fstr(pr[0][3][0])
-            ctx.ob("C15.d", "lookahead:pattern-parsed-and-converted", ok, "try_from_ast(%s) of parse(%s)" % (S.vstr(ta[0][3][0])[:50], S.vstr(pr[0][3][0])[:50]), tl.loc())
+            ok = ta[0][3][0] == ("field", ("downcast", pr[0][4], "Ok"), "0") and text_is_exactly(ex, p, pr[0][3][0], r"^[&*(]*lookahead\.pattern\)?$|^[&*(]*Lookahead::pattern\([&*]*lookahead\)\)?$")
+            ctx.ob(rule, "lookahead:pattern-parsed-and-converted", ok, "try_from_ast(%s) of parse(%s)" % (S.vstr(ta[0][3][0])[:50], S.vstr(pr[0][3][0])[:50]), tl.loc())
             # same pipeline as patterns: Nfa -> CompiledDfa::from (closure construction + minimizer)
             conv = [e for e in p.events if e[0] == "call" and re.search(r"Into<internal::compiled_dfa::CompiledDfa>>::into$|CompiledDfa as std::convert::From<internal::nfa::Nfa>>::from$", e[2])]
-            ctx.ob("C02.h", "lookahead:compiled-through-the-same-pipeline", len(conv) == 1, "Nfa -> CompiledDfa conversions: %d" % len(conv), tl.loc())
-            ctx.ob("C15.d", "lookahead:compiled-through-the-same-pipeline", len(conv) == 1, "Nfa -> CompiledDfa conversions: %d" % len(conv), tl.loc())
-    ctx.ob("C15.d", "lookahead:all-outcomes", seen == {"parse-err", "convert-err", "ok"}, "outcomes %s" % sorted(seen), tl.loc())
+            ctx.ob(rule, "lookahead:compiled-through-the-same-pipeline", len(conv) == 1, "Nfa -> CompiledDfa conversions: %d" % len(conv), tl.loc())
+    ctx.ob(rule, "lookahead:all-outcomes", seen == {"parse-err", "convert-err", "ok"}, "outcomes %s" % sorted(seen), tl.loc())
 
+
+
+def check(ctx):
+    F = ctx.facts
+    ctx.trust("regex-syntax: the parser rejects look-around syntax and reports syntax errors as Err")
+    dispatch.analyze(ctx, RULES)
+    classes.analyze(ctx, {"C15.e"})
+    panics.analyze(ctx, {"C15.h"})
+    # an unsupported class is rejected when its predicate is created, and predicates are created per *registered* class:
+    # the registry may fold two classes into one entry only if they mean the same (C02.f), else the second is never converted
+    from . import sharing
+    sharing.analyze(ctx, {"C02.f"})
+
+    parse_pipeline(ctx, "C15.d")
+    tl = F.fn(r"CompiledLookahead::try_from_lookahead$")
     cp = F.fn(r"CompiledDfa::try_from_patterns$")
     ctx.analysed_fn(cp)
     ex, paths = run_fn(cp, F, BaseModel(), max_paths=5000)
